@@ -412,6 +412,17 @@ class RangeAnalysis:
             inner = e[1]
             if inner[0] == 'ref':
                 return self.ev(inner[1])
+            if inner[0] == 'cptr' and inner[2] == 0:
+                # a promoted scalar constant (`debug_assert_eq!(x & 0xF800, 0xD800)` compares through references)
+                try:
+                    import json as _json
+                    tgt = _json.loads(inner[1])
+                    raw = self.facts.mem_bytes(tgt['mem']) if 'mem' in tgt and str(tgt['mem']) in self.facts.mems and \
+                        not self.facts.mems[str(tgt['mem'])].get('relocs') else None
+                except Exception:
+                    raw = None
+                if raw is not None and len(raw) in (1, 2, 4, 8):
+                    return AV.const(int.from_bytes(raw, 'little'), len(raw) * 8, N)
             return self.top()
         return self.top()
 
@@ -921,6 +932,10 @@ def leaves(e):
     k = e[0]
     if k in ('c', 'cs', 'cfn', 'cptr', 'czst', 'cother'):
         return []
+    if k == 'deref' and e[1][0] == 'cptr':
+        return []              # a promoted constant behind a reference
+    if k == 'deref' and e[1][0] == 'ref':
+        return leaves(e[1][1])
     if k in ('bin', 'ovfflag'):
         return leaves(e[2]) + leaves(e[3])
     if k == 'un':
